@@ -191,6 +191,7 @@ func (w *world) lookupFloor(head uint64) uint64 {
 // checkLookups: every transaction lookup that resolves points at the canonical
 // block containing the transaction; inside the indexed window it must resolve.
 func (w *world) checkLookups(cv *canonView, idle bool) *simcore.Violation {
+	w.staleCacheHash = common.Hash{}
 	type home struct {
 		num  uint64
 		idx  int
@@ -210,9 +211,8 @@ func (w *world) checkLookups(cv *canonView, idle bool) *simcore.Violation {
 		if lk != nil {
 			if !canonical {
 				if dbtx, _, _, _ := rawdb.ReadCanonicalTransaction(w.db, h); dbtx == nil {
-					v := viol("txlookup-noncanonical", "GetCanonicalTransaction(%x) gives #%d %x from its cache; the tx is not in the canonical chain and the database does not resolve it", h[:4], lk.BlockIndex, lk.BlockHash[:4])
-					v.Key = "txlookup-wrong:stale-lookup-cache"
-					return v
+					w.staleCacheNum, w.staleCacheHash = lk.BlockIndex, lk.BlockHash
+					return viol("txlookup-noncanonical", "GetCanonicalTransaction(%x) gives #%d %x from its cache; the tx is not in the canonical chain and the database does not resolve it", h[:4], lk.BlockIndex, lk.BlockHash[:4])
 				}
 				return viol("txlookup-noncanonical", "lookup of tx %x resolves to #%d %x but the tx is not in the canonical chain", h[:4], lk.BlockIndex, lk.BlockHash[:4])
 			}
@@ -220,9 +220,8 @@ func (w *world) checkLookups(cv *canonView, idle bool) *simcore.Violation {
 				if dbtx, dbHash, dbNum, dbIdx := rawdb.ReadCanonicalTransaction(w.db, h); dbtx == nil || (dbHash == hm.hash && dbNum == hm.num && dbIdx == uint64(hm.idx)) {
 					// the database resolves the transaction correctly (or, unindexed, not at all),
 					// BlockChain's lookup cache answers with a block that is no longer canonical
-					v := viol("txlookup-wrong", "GetCanonicalTransaction(%x) gives #%d %x index %d from its cache, the database (and the canonical chain) say #%d %x index %d", h[:4], lk.BlockIndex, lk.BlockHash[:4], lk.Index, hm.num, hm.hash[:4], hm.idx)
-					v.Key = "txlookup-wrong:stale-lookup-cache"
-					return v
+					w.staleCacheNum, w.staleCacheHash = lk.BlockIndex, lk.BlockHash
+					return viol("txlookup-wrong", "GetCanonicalTransaction(%x) gives #%d %x index %d from its cache, the database (and the canonical chain) say #%d %x index %d", h[:4], lk.BlockIndex, lk.BlockHash[:4], lk.Index, hm.num, hm.hash[:4], hm.idx)
 				}
 				return viol("txlookup-wrong", "lookup of tx %x gives #%d %x index %d, canonical position is #%d %x index %d", h[:4], lk.BlockIndex, lk.BlockHash[:4], lk.Index, hm.num, hm.hash[:4], hm.idx)
 			}
